@@ -929,3 +929,35 @@ pub fn parse_case(lines: &[String]) -> Option<QtCase> {
     }
     Some(QtCase { opts, sheets })
 }
+
+/// Replays every `corpus/C18/*.case` (located relative to the harness executable:
+/// harness/target/release/acb_verif_harness -> ../../../corpus/C18).
+pub fn corpus_cases(scratch: &Scratch) -> Vec<String> {
+    let mut out = Vec::new();
+    let dir = match std::env::current_exe() {
+        Ok(p) => match p.ancestors().nth(4) {
+            Some(root) => root.join("corpus").join("C18"),
+            None => return out,
+        },
+        Err(_) => return out,
+    };
+    let mut files: Vec<PathBuf> = match std::fs::read_dir(&dir) {
+        Ok(rd) => rd.filter_map(|e| e.ok().map(|e| e.path())).filter(|p| p.extension().map(|x| x == "case").unwrap_or(false)).collect(),
+        Err(_) => return out,
+    };
+    files.sort();
+    for f in files {
+        let text = match std::fs::read_to_string(&f) {
+            Ok(t) => t,
+            Err(_) => continue,
+        };
+        let lines: Vec<String> = text.lines().filter(|l| *l != "end").map(|l| l.to_string()).collect();
+        if let Some(c) = parse_case(&lines) {
+            let id = lines[0].split_whitespace().nth(1).unwrap_or("corpus").to_string();
+            let mut s = String::new();
+            run_case(&id, &c, scratch, &mut s);
+            out.push(s);
+        }
+    }
+    out
+}
